@@ -249,6 +249,65 @@ def multi_file_check(ctx, exe, root, F, U, FA):
                % len(cases), bad == 0, "oracle", "%d" % bad)
 
 
+def spelling_check(ctx, exe, root, F, U, FA):
+    """the protocol is about the FILE, not about how its path is spelled: histories of --replace runs that name the same file as
+    d/t.c, ./d/t.c, d//t.c, d/./t.c, d/../d/t.c, an absolute path, or through a -F list must leave the triples of the reference model"""
+    d = os.path.join(root, "spell")
+    spellings = ["d/t.c", "./d/t.c", "d//t.c", "d/./t.c", "d/../d/t.c", "@ABS@/d/t.c", "LIST:d/t.c", "LIST:./d/t.c"]
+    hists = []
+    for s1 in spellings:
+        for s2 in spellings:
+            if s1 != s2:
+                hists.append([("r", "a", s1), ("w", U), ("r", "b", s2), ("r", "b", s1)])
+    for s1 in spellings:
+        hists.append([("r", "a", s1), ("r", "b", s1), ("r", "b", "d/t.c")])
+        hists.append([("r", "a", "d/t.c"), ("w", U), ("r", "a", s1), ("r", "a", s1)])
+    bad = 0
+    for h in hists:
+        shutil.rmtree(d, ignore_errors=True)
+        os.makedirs(os.path.join(d, "d"))
+        for k, v in CFGS.items():
+            with open(os.path.join(d, k + ".cfg"), "w") as f:
+                f.write(v)
+        base = os.path.join(d, "d", "t.c")
+        open(base, "wb").write(U)
+        sp = Spec(U)
+        rd = lambda p: open(p, "rb").read() if os.path.exists(p) else None
+        ctx.case("spell:%s" % (h,))
+        for step, op in enumerate(h):
+            if op[0] == "w":
+                open(base, "wb").write(op[1])
+                sp = sp.write(op[1])
+                continue
+            _, cfg, spell = op
+            spell = spell.replace("@ABS@", d)
+            if spell.startswith("LIST:"):
+                open(os.path.join(d, "list.txt"), "w").write(spell[5:] + "\n")
+                argv = ["-q", "-c", cfg + ".cfg", "-l", "C", "--replace", "-F", "list.txt"]
+            else:
+                argv = ["-q", "-c", cfg + ".cfg", "-l", "C", "--replace", spell]
+            r = subprocess.run([exe] + argv, cwd=d, stdin=subprocess.DEVNULL, stdout=subprocess.PIPE, stderr=subprocess.PIPE)
+            sp = sp.run(F, cfg)
+            md5 = rd(base + ".unc-backup.md5~")
+            got = (rd(base), rd(base + ".unc-backup~"), None if md5 is None else md5[:32])
+            want = (sp.file, sp.g, None if sp.last is None else inject.md5_line(sp.last, "t.c")[:32])
+            extra = sorted(x for x in os.listdir(os.path.join(d, "d")) if x not in ("t.c", "t.c.unc-backup~", "t.c.unc-backup.md5~"))
+            if r.returncode != 0 or got != want or extra:
+                bad += 1
+                which = [w for w, a, b in zip(("file", "backup", "md5"), got, want) if a != b] + (["extra files %s" % extra] if extra else [])
+                ctx.violation("history %s: after step %d the %s of d/t.c is not what the backup protocol prescribes (exit %d): the same file named "
+                              "with another spelling of its path" % ([o[:1] + o[2:] if o[0] == "r" else ("w", "unformatted text") for o in h], step + 1,
+                                                                   "/".join(which) or "exit status", r.returncode),
+                              {"history": [{"run": "uncrustify " + " ".join(["-q", "-c", o[1] + ".cfg", "-l", "C", "--replace", o[2]])} if o[0] == "r"
+                                           else {"write": c13.show(o[1])} for o in h],
+                               "cfgs": CFGS, "start": c13.show(U), "got": show_triple((got[0], got[1], md5)),
+                               "expected": show_triple((want[0], want[1], want[2]))}, key=None, found_input=True)
+                break
+    shutil.rmtree(d, ignore_errors=True)
+    ctx.oblige("path spellings: histories naming one file as d/t.c, ./d/t.c, d//t.c, d/./t.c, d/../d/t.c, absolute, -F list follow the protocol (%d histories)"
+               % len(hists), bad == 0, "oracle", "%d" % bad)
+
+
 def _run(ctx, exe, root, thorough):
     check_md5(ctx, exe, root)
     seedv = ctx.rng.randrange(1000)
@@ -280,6 +339,7 @@ def _run(ctx, exe, root, thorough):
                all(F[("n", c)] == c for c in seen) and F[("a", U)] != F[("b", U)] and F[("a", FA)] == FA, "setup")
     ctx.count("universe-contents", len(seen))
     multi_file_check(ctx, exe, root, F, U, FA)
+    spelling_check(ctx, exe, root, F, U, FA)
     ftable = ";".join("%d:%s>%s" % (CFG_ID[cfg], inject.hexl(c), inject.hexl(out)) for (cfg, c), out in F.items() if out != c) or "-"
 
     maxlen = 6 if thorough else 4
